@@ -111,6 +111,10 @@ def run(c):
     c.never("no-commit-inside-pipeline", "grin_chain::pipe::process_block", None, "re:store::Batch::commit$", desc="pipe::process_block never commits the outer batch itself")
     c.r3("commit-sites", "grin_chain::store::Batch::commit", _commit_callers(c), floor_sites=13)
 
+    # --- type-level clauses (R8 compile-fail witnesses with compiling twins; `cargo check` only, nothing is executed)
+    import witness
+    witness.run(c, "C17")
+
 
 def _commit_callers(c):
     # frozen set of functions that commit a chain batch
